@@ -5,6 +5,7 @@ CONSTANTS Paths = {1}
           MaxActions = 6
           KeyModel = 1
           VStep = {1, 2}
+          TimeChoices = {0, 1, 2, 3, 4}
           WithX = TRUE
           EmitOn = FALSE
           Sim = FALSE
